@@ -56,6 +56,17 @@ def explain_case(model_dev, c, rec):
         if fr["kind"] == "rejected" and not any(w in fr.get("msg", "") for w in ("divide by zero", "mod by zero")):
             bad.append("%s: %s: the optimiser rejects the program for something other than a zero divisor: %s" % (mode, r["expr"], fr.get("msg", "")[:120]))
             continue
+        # the property itself, whatever the model can say about the value: where both compiles accept, they agree
+        on, off = r["on"], r["off"]
+        if on["accepted"] and off["accepted"]:
+            a = (on["rterr"], on["set"], on["type"], on["i"] if on["type"] == "Int" else on["fs"])
+            b = (off["rterr"], off["set"], off["type"], off["i"] if off["type"] == "Int" else off["fs"])
+            if a != b:
+                bad.append("%s: %s: optimised compile gives (runtime error, set, type, value) = %s, unoptimised %s" % (mode, r["expr"], a, b))
+                continue
+        elif off["accepted"] and not on["accepted"] and not (f["rej"] or c.get("ckrejon")):
+            bad.append("%s: %s: only the optimised compile rejects, and no literal zero divides: %s" % (mode, r["expr"], on["errors"][:160]))
+            continue
         if f["ovf"]:
             if fr["kind"] == "rejected":
                 bad.append("%s: %s: optimiser rejects, the model sees no literal-zero divisor (value outside the model)" % (mode, r["expr"]))
@@ -71,17 +82,6 @@ def explain_case(model_dev, c, rec):
             got = fr["i"] if fr["kind"] == "int" else fr["f"]
             if fr["kind"] != k or not close(got, n / d):
                 bad.append("%s: %s folds to %s %s, model %s %s/%s" % (mode, r["expr"], fr["kind"], got, k, n, d))
-        # the property itself, whatever the model can say about the value: where both compiles accept, they agree
-        on, off = r["on"], r["off"]
-        if on["accepted"] and off["accepted"]:
-            a = (on["rterr"], on["set"], on["type"], on["i"] if on["type"] == "Int" else on["fs"])
-            b = (off["rterr"], off["set"], off["type"], off["i"] if off["type"] == "Int" else off["fs"])
-            if a != b:
-                bad.append("%s: %s: optimised compile gives (runtime error, set, type, value) = %s, unoptimised %s" % (mode, r["expr"], a, b))
-                continue
-        elif off["accepted"] and not on["accepted"] and not (f["rej"] or c.get("ckrejon")):
-            bad.append("%s: %s: only the optimised compile rejects, and no literal zero divides: %s" % (mode, r["expr"], on["errors"][:160]))
-            continue
         # the optimised and unoptimised programs against the reference value
         v = c["v"]
         if v["ovf"]:
